@@ -321,9 +321,9 @@ func (c11Prop) Race() bool    { return false }
 
 func (c11Prop) Count(tier string) int {
 	if tier == "thorough" {
-		return 40000
+		return 120000
 	}
-	return 1200
+	return 4000
 }
 
 func (c11Prop) Rule() string {
